@@ -2,6 +2,7 @@ import Sebuf.OaEmit
 import Sebuf.Lemmas.OaComp
 import Sebuf.Route
 import Sebuf.Props.C03
+import Sebuf.Lemmas.PropsC18
 /-!
 # C18 — each OpenAPI document is well-formed, complete and format-independent
 
@@ -20,6 +21,7 @@ theorem format_param :
     formatOf none = "FormatYAML" ∧ formatOf (some "yaml") = "FormatYAML" ∧ formatOf (some "yml") = "FormatYAML" ∧
     formatOf (some "json") = "FormatJSON" ∧ formatOf (some "xml") = "FormatYAML" ∧ formatOf (some "") = "FormatYAML" := by decide
 
+/-- file extension per format. -/
 theorem extensions : extOf "FormatJSON" = "json" ∧ extOf "FormatYAML" = "yaml" := by decide
 
 /-- the emitter iterates the services of each file to generate and names the document after the
@@ -33,13 +35,6 @@ theorem one_doc_per_service (param : Option String) (services : List String) :
     (docNames param services).length = services.length := by
   unfold docNames; simp
 
-theorem docName_injective (param : Option String) (a b : String) (h : docName param a = docName param b) : a = b := by
-  unfold docName at h
-  have h' := congrArg String.toList h
-  simp only [String.toList_append] at h'
-  have := List.append_cancel_right (List.append_cancel_right h')
-  exact String.toList_inj.mp this
-
 /-- distinct services get distinct files. -/
 theorem doc_names_distinct (param : Option String) (services : List String) (h : services.Nodup) :
     (docNames param services).Nodup := by
@@ -47,65 +42,6 @@ theorem doc_names_distinct (param : Option String) (services : List String) (h :
   exact List.Pairwise.map _ (fun a b hne hab => hne (docName_injective param a b hab)) h
 
 /-! ### path variables of the template vs declared path parameters -/
-
-theorem aux_none_append (x y : Str) (h : '{' ∉ x) :
-    extractPathParamsAux none (x ++ y) = extractPathParamsAux none y := by
-  induction x with
-  | nil => rfl
-  | cons c t ih =>
-    have hc : c ≠ '{' := fun e => h (e ▸ List.mem_cons_self)
-    have ht : '{' ∉ t := fun m => h (List.mem_cons_of_mem _ m)
-    simp only [List.cons_append, extractPathParamsAux, hc, if_false]
-    exact ih ht
-
-theorem mem_trimSuffixSlash (x : Str) (c : Char) (h : c ∈ trimSuffixSlash x) : c ∈ x := by
-  unfold trimSuffixSlash at h
-  split at h
-  · exact List.dropLast_subset _ h
-  · exact h
-
-theorem mem_ensureLeadingSlash (x : Str) (c : Char) (hc : c ≠ '/') (h : c ∈ ensureLeadingSlash x) : c ∈ x := by
-  unfold ensureLeadingSlash at h
-  split at h
-  · simp at h; exact absurd h hc
-  · exact h
-  · rcases List.mem_cons.mp h with h | h
-    · exact absurd h hc
-    · exact h
-
-theorem extract_trimPrefixSlash (p : Str) : extractPathParams (trimPrefixSlash p) = extractPathParams p := by
-  unfold trimPrefixSlash extractPathParams
-  split
-  · simp [extractPathParamsAux]
-  · rfl
-
-theorem extract_ensureLeadingSlash (p : Str) : extractPathParams (ensureLeadingSlash p) = extractPathParams p := by
-  unfold ensureLeadingSlash extractPathParams
-  split
-  · simp [extractPathParamsAux]
-  · rfl
-  · simp [extractPathParamsAux]
-
-/-- `BuildHTTPPath(base, path)` has the variables of `path` when `base` holds none. -/
-theorem extract_buildHTTPPath (sp mp : Str) (h : '{' ∉ sp) :
-    extractPathParams (buildHTTPPath sp mp) = extractPathParams mp := by
-  unfold buildHTTPPath
-  split
-  · rename_i h0; rw [h0.2]; simp [extractPathParams, extractPathParamsAux]
-  · split
-    · exact extract_ensureLeadingSlash mp
-    · split
-      · rename_i hm
-        rw [hm, extract_ensureLeadingSlash]
-        have : extractPathParamsAux none (sp ++ []) = extractPathParamsAux none [] := aux_none_append sp [] h
-        simpa [extractPathParams] using this
-      · have hno : '{' ∉ trimSuffixSlash (ensureLeadingSlash sp) := by
-          intro hm
-          exact h (mem_ensureLeadingSlash sp '{' (by decide) (mem_trimSuffixSlash _ _ hm))
-        unfold extractPathParams
-        rw [aux_none_append _ _ hno]
-        simp only [extractPathParamsAux, show ('/' : Char) ≠ '{' by decide, if_false]
-        exact extract_trimPrefixSlash mp
 
 /-- **path variables, partial**: when the service base path holds no `{variable}`, the variables
 of the operation's path template are exactly the declared path parameters (same order, same
@@ -124,8 +60,6 @@ theorem base_path_variable_undeclared :
 theorem repeated_variable_declared_twice :
     let m := C03.mk "S" "Get" "Get" "p" "" true "/a/{id}/b/{id}" 1 []
     (route .openapi m).pathVars = ["id".toList, "id".toList] := by decide
-
-
 
 /-! ### JSON vs YAML renderings -/
 
